@@ -716,6 +716,8 @@ func (p *RXTimingSetupReqPayload) UnmarshalBinary(data []byte) error {
 		return errors.New("lorawan: 1 byte of data is expected")
 	}
 	p.Delay = data[0]
+	// bits 7..4 are RFU and must be ignored
+	p.Delay &= 0x0f
 	return nil
 }
 
